@@ -27,3 +27,19 @@ Theorem C05_accepted_at_most_once : forall k d x pl k' xk, recvDataMsg k d x = O
   forall (evs : list kev) x', match recvDataMsg (fold_left kstep evs k') d x' with Ok _ => False | _ => True end.
 Proof. exact accepted_at_most_once. Qed.
 Print Assumptions C05_accepted_at_most_once.
+
+(* ---- at conversation level ----
+   A data message whose text Receive has delivered is not delivered again, however long the session goes on in between:
+   any calls (Receive of anything, Send, SMP, extra key) except End, as long as no security event reports that the
+   session was replaced or ended (a later session has other keys: C01 / C10). *)
+From OTR Require Import Gen.Consts Proto.Conv Proto.Lifecycle Proto.Once.
+Theorem C05_delivered_once_per_session : forall now c ver stag rtag d aux rnd t h now' ver' stag' rtag' aux' rnd',
+  let '(c1, r1) := step now c (CReceive (WEnc ver stag rtag (EData d)) aux rnd) in
+  r_plain r1 = Some t -> nosec (r_events r1) ->
+  no_end h ->
+  let '(c2, evs) := run_calls c1 h in
+  nosec evs ->
+  let '(c3, r3) := step now' c2 (CReceive (WEnc ver' stag' rtag' (EData d)) aux' rnd') in
+  r_plain r3 = None.
+Proof. exact delivered_once. Qed.
+Print Assumptions C05_delivered_once_per_session.
